@@ -48,6 +48,19 @@ def expand(x):
     return x
 
 
+def latin1(x):
+    """the same structure with every string restricted to U+0000..U+00FF (orjson escapes nothing above ASCII)"""
+    if isinstance(x, str):
+        return ''.join(c if ord(c) < 256 else chr(0xC0 + ord(c) % 0x3F) for c in x)
+    if isinstance(x, dict):
+        if list(x.keys()) == ['$big']:
+            return {'$big': ['a', x['$big'][1], x['$big'][2]]}
+        return dict((latin1(k), latin1(v)) for k, v in x.items())
+    if isinstance(x, list):
+        return [latin1(v) for v in x]
+    return x
+
+
 def deep_eq(a, b):
     if type(a) is not type(b):
         return False
@@ -58,6 +71,11 @@ def deep_eq(a, b):
     if isinstance(a, dict):
         return list(a.keys()) == list(b.keys()) and all(deep_eq(a[k], b[k]) for k in a)
     return a == b
+
+
+def json_text(x):
+    import json as _json
+    return _json.dumps(x, ensure_ascii=False)
 
 
 class C19(Check):
@@ -73,7 +91,7 @@ class C19(Check):
             'rxsci.framing.line (current working tree)', 'orjson, zlib, zstandard, codecs', 'RxPY core']
     stubs = ['simulated disk / file objects (open_obj seam, short reads)', 'final subscriber']
     assumptions = ['items are dicts (a top-level null is dropped by design); strings contain no lone surrogates; ints fit 64 bits']
-    probe_names = ('object>64KiB', 'compression:None', 'compression:gzip', 'compression:zstd', 'short_reads', 'one_byte_reads', 'file>64KiB', 'multibyte_chars',
+    probe_names = ('encoding:utf-16', 'encoding:latin-1', 'object>64KiB', 'compression:None', 'compression:gzip', 'compression:zstd', 'short_reads', 'one_byte_reads', 'file>64KiB', 'multibyte_chars',
                    'newline_in_string', 'empty_file', 'path:mem')
     quick_cap = 100000
 
@@ -93,6 +111,10 @@ class C19(Check):
             items[rng.randrange(len(items))]['blob'] = {'$big': [kind, n1, rng.randrange(1000)]}
         case = {'items': items, 'compression': rng.choice([None, 'gzip', 'zstd']), 'path': 'file' if rng.random() < 0.8 else 'mem',
                 'cutseed': rng.randrange(1 << 30)}
+        # the optional encoding argument, given to both dump_to_file and load_from_file
+        case['encoding'] = rng.choice(['utf-8', 'utf-8', 'utf-8', 'utf-8', 'utf-16', 'utf-32', 'latin-1'])
+        if case['encoding'] == 'latin-1':
+            case['items'] = items = latin1(items)
         if big or any('$big' in repr(i) for i in items):
             # megabytes read in 1-byte pieces would be millions of read() calls: full-size or large reads only
             case['reads'] = rng.choice([[], [4096], [65536, 1000, 30000]])
@@ -103,6 +125,10 @@ class C19(Check):
     def valid(self, case):
         try:
             if case['compression'] not in (None, 'gzip', 'zstd') or case['path'] not in ('file', 'mem'):
+                return False
+            if case.get('encoding', 'utf-8') not in ('utf-8', 'utf-16', 'utf-32', 'latin-1'):
+                return False
+            if case.get('encoding') == 'latin-1' and any(ord(c) > 255 for c in json_text(case['items'])):
                 return False
             if not all(isinstance(i, dict) for i in case['items']):
                 return False
@@ -137,12 +163,14 @@ class C19(Check):
             steps = len(cuts) + 1
         else:
             p['compression:%s' % comp] += 1
+            if case.get('encoding', 'utf-8') != 'utf-8':
+                p['encoding:%s' % case['encoding']] += 1
             disk = SimDisk(short_reads=case.get('reads') or ())
-            _, t = collect(rx.from_(items).pipe(rsjson.dump_to_file('sim.json', compression=comp, open_obj=disk.open)))
+            _, t = collect(rx.from_(items).pipe(rsjson.dump_to_file('sim.json', compression=comp, encoding=case.get('encoding', 'utf-8'), open_obj=disk.open)))
             if t is None or t[0] != 'completed':
                 out.add('dump_to_file-failed', 'json', {'terminal': repr(t), 'compression': comp})
                 return out
-            got, term = collect(rsjson.load_from_file('sim.json', compression=comp, open_obj=disk.open))
+            got, term = collect(rsjson.load_from_file('sim.json', compression=comp, encoding=case.get('encoding', 'utf-8'), open_obj=disk.open))
             size = len(disk.files.get('sim.json', b''))
             short = disk.short
             steps = disk.reads
@@ -167,7 +195,7 @@ class C19(Check):
         out.steps = steps
         out.ticks = size
         out.digest = repr((repr(got)[:2000], repr(term), [v.to_json() for v in out.violations]))
-        out.shape = (repr(items)[:5000], len(items), comp, case['path'], tuple(case.get('reads') or ()), case['cutseed'])
+        out.shape = (repr(items)[:5000], len(items), comp, case.get('encoding'), case['path'], tuple(case.get('reads') or ()), case['cutseed'])
         out.nontrivial = len(items) >= 2 and (short > 0 or size > 65536)
         txt = repr(items)
         if any(ord(c) > 127 for c in txt):
